@@ -70,19 +70,25 @@ class Ident:
             return ("phi", qual, e.id, tuple(sorted(d.node for d in defs)))
         if isinstance(e, ast.Attribute):
             base = self.of(e.value, mi, cfg, at, qual, depth + 1)
-            if base[0] == "obj":
-                cls_qual, node_id, call = base[1], base[2], base[3]
-                fields = self.class_fields(cls_qual)
-                if e.attr in fields:
-                    init = fields["__init__"]
-                    b = bind_call(init, call, skip_self=True)
-                    arg = b.get(fields[e.attr])
-                    if arg is not None and not isinstance(arg, list):
-                        return self.of(arg, mi, cfg, node_id, qual, depth + 1)
-            return ("attr", base, e.attr)
+            if base[0] == "alt":
+                # the object is one of several known ones: its field is the field of one of them
+                return _alt({self._field_of(m, e.attr, mi, cfg, qual, depth) for m in base[1]})
+            return self._field_of(base, e.attr, mi, cfg, qual, depth)
         if isinstance(e, ast.Call):
             return self._of_value(e, mi, cfg, at, qual, "<expr>", depth)
         return ("expr", ast.unparse(e)[:40])
+
+    def _field_of(self, base, attr, mi, cfg, qual, depth):
+        if base[0] == "obj":
+            cls_qual, node_id, call = base[1], base[2], base[3]
+            fields = self.class_fields(cls_qual)
+            if attr in fields:
+                init = fields["__init__"]
+                b = bind_call(init, call, skip_self=True)
+                arg = b.get(fields[attr])
+                if arg is not None and not isinstance(arg, list):
+                    return self.of(arg, mi, cfg, node_id, qual, depth + 1)
+        return ("attr", base, attr)
 
     def leaves(self, ident, mi, cfg, qual, depth=0):
         """Identities of the sub-modules an object is built from (constructor fields, recursively); {ident} for plain objects."""
